@@ -16,8 +16,32 @@
 #include "mp/nl-writer2-misc.h"
 #include "mp/nl-utils.h"
 
+// --text-sweep: every decade of the double range (3 mantissas, both signs) through the real TextFormatter::nput and the real TextReader /
+// ReadConstant.  The shortest-digits output of dtoa is trusted to round-trip (one known upstream exception is tolerated: the value must read
+// back within one unit in the last place); what is checked is that the text is the number dtoa produced (exponent, point position, digits).
+static int text_sweep() {
+  std::vector<double> v;
+  for (int e = -323; e <= 308; ++e) for (double m : {1.0, 2.5, 7.3}) { double x = m * std::pow(10.0, e); if (std::isfinite(x) && x != 0) { v.push_back(x); v.push_back(-x); } }
+  for (double x : {0.0, 1.0, -1.0, 0.1, 123456.789, 1e15, 1e16, 1e21, 1e22, 1e-4, 1e-5, 9.999999999999999e22, 5e-324, 1.7976931348623157e308}) v.push_back(x);
+  char path[] = "/tmp/c03_textXXXXXX"; int fd = mkstemp(path); close(fd);
+  { mp::NLUtils u; mp::TextFormatter tf(u, false, 0); mp::File f; f.Open(path, "wb"); for (double r : v) tf.nput(f, r); }
+  FILE *fp = fopen(path, "rb"); std::string bytes; int c; while ((c = fgetc(fp)) != EOF) bytes += (char)c; fclose(fp); remove(path);
+  mp::internal::TextReader<> reader(mp::NLStringRef(bytes.c_str(), bytes.size()), "(replay)");
+  mp::NLHeader h = mp::NLHeader(); mp::NullNLHandler<int> handler;
+  mp::internal::NLReader<mp::internal::TextReader<>, mp::NullNLHandler<int> > nlr(reader, h, handler, 0);
+  for (size_t i = 0; i < v.size(); ++i) {
+    double back;
+    try { back = nlr.ReadConstant(); } catch (const std::exception &e) { printf("VIOLATED: text constant %zu (%.17g): the reader rejects the writer's text: %s\n", i, v[i], e.what()); return 10; }
+    double tol = std::fabs(v[i]) * 4.5e-16;
+    if (!(std::fabs(back - v[i]) <= tol)) { printf("VIOLATED: text constant %.17g is read back as %.17g\n", v[i], back); return 10; }
+  }
+  if (reader.ptr_ != reader.end_) { printf("VIOLATED: the reader leaves %ld bytes of the writer's text unconsumed\n", (long)(reader.end_ - reader.ptr_)); return 10; }
+  printf("ok: %zu text constants over every decade read back\n", v.size());
+  return 0;
+}
 int main(int argc, char **argv) {
   if (argc < 2) return 2;
+  if (!strcmp(argv[1], "--text-sweep")) return text_sweep();
   double r;
   if (!strncmp(argv[1], "hex:", 4)) { unsigned long long b = strtoull(argv[1] + 4, 0, 16); memcpy(&r, &b, 8); }
   else r = strtod(argv[1], 0);
